@@ -94,6 +94,7 @@ package protocol
 //@   requires h != nil && excl(h.mtx) && msg != nil && hshape(h)
 //@   unclaimed type-assert r.(round.BroadcastRound) -- needs the queue invariant "every message in h.broadcast[k] has Broadcast set" (nested-map quantifier, not discharged robustly); holds because store() files messages by their Broadcast flag and getRoundMessage rejects a broadcast message for a non-broadcast round
 //@   modifies shared
+//@   keeps ownmaps
 //@   ensures hshape(h)
 
 // Dependency order (C07): a point-to-point message is verified and stored only for a round that has been
@@ -105,6 +106,7 @@ package protocol
 //@   nopanic[C05,C17]
 //@   requires h != nil && excl(h.mtx) && msg != nil && hshape(h)
 //@   modifies shared
+//@   keeps ownmaps
 //@   ensures hshape(h)
 
 //@ func (*MultiHandler).receivedAll
@@ -135,11 +137,13 @@ package protocol
 //@ func unmarshalContent
 //@   nopanic[C05]
 //@   modifies shared
+//@   keeps ownmaps
 
 //@ func getRoundMessage
 //@   nopanic[C05,C17]
 //@   requires msg != nil && r != nil
 //@   modifies shared
+//@   keeps ownmaps
 //@   ensures (result1 == nil && msg.Broadcast) ==> implements(r, round.BroadcastRound)
 //@   ensures msg.Broadcast == old(msg.Broadcast)
 
@@ -155,11 +159,20 @@ package protocol
 //@   assert_at[C04] abort "broadcast verification failed": len(arg2) == 0
 //@   assert_at[C04] abort "h.abort(R.Err, R.Culprits...)": arg2 == R.Culprits && arg1 == R.Err
 //@   assert_at[C04] abort "h.abort(err, m.From)": len(arg2) == 1 && arg2[0] == m.From
+// Replay of messages queued for the round just entered (C07): every early message reaches the entry point that
+// matches the KIND of the new round -- broadcasts of a broadcast round via verifyBroadcastMessage, point-to-point
+// messages of a round without broadcast via verifyMessage -- before the handler tries to advance again.
+//@   assert_at[C07] verifyBroadcastMessage "h.verifyBroadcastMessage(m); err != nil": implements(r, round.BroadcastRound)
+//@   assert_at[C07] verifyMessage "h.verifyMessage(m); err != nil": !implements(r, round.BroadcastRound)
+//@   assert_at[C07] finalize "h.finalize()": !implements(r, round.BroadcastRound) ==> forall(j, party.ID, h.messages[roundNumber][j] != nil ==> calledwith(verifyMessage, h.messages[roundNumber][j]))
+//@   assert_at[C07] finalize "h.finalize()": implements(r, round.BroadcastRound) ==> forall(j, party.ID, (h.broadcast[roundNumber][j] != nil && j != r.SelfID()) ==> calledwith(verifyBroadcastMessage, h.broadcast[roundNumber][j]))
 //@   loop 1: invariant !closed(h.out)
 //@   loop 1: invariant h.err == nil && h.result == nil
 //@   loop 1: invariant hshape(h)
 //@   loop 2: invariant hopen(h)
 //@   loop 3: invariant hopen(h)
+//@   loop 2: invariant[C07] forall(j, party.ID, (visited(2, j) && h.broadcast[roundNumber][j] != nil && j != r.SelfID()) ==> calledwith(verifyBroadcastMessage, h.broadcast[roundNumber][j]))
+//@   loop 3: invariant[C07] forall(j, party.ID, (visited(3, j) && h.messages[roundNumber][j] != nil) ==> calledwith(verifyMessage, h.messages[roundNumber][j]))
 
 //@ func NewMultiHandler
 //@   nopanic[C05,C17]
